@@ -180,7 +180,11 @@ class UncertainArray(np.ndarray):
         else:
             assert False, 'Should not occur: __array_ufunc__ received {} inputs'.format(case)
 
-        return attr(*inputs)
+        try:
+            return attr(*inputs)
+        finally:
+            # the broadcast shape is only meaningful while this ufunc is evaluated
+            self._broadcasted_shape = None
 
     def __repr__(self):
         # Use the numpy formatting but hide the default dtype
